@@ -205,6 +205,24 @@ def theorems_of(path):
     return names
 
 
+def gen_deps(modules):
+    """names (Cxx) of the regenerated ElexModel.Gen.* modules transitively imported by the given modules"""
+    seen, out, todo = set(), set(), list(modules)
+    while todo:
+        m = todo.pop()
+        if m in seen or not m.startswith("ElexModel"):
+            continue
+        seen.add(m)
+        f = LEAN / (m.replace(".", "/") + ".lean")
+        if not f.exists():
+            continue
+        for imp in re.findall(r"^import\s+(\S+)", f.read_text(), re.M):
+            if imp.startswith("ElexModel.Gen."):
+                out.add(imp.split(".")[-1])
+            todo.append(imp)
+    return sorted(out)
+
+
 def forbidden_scan(paths):
     hits = []
     for f in paths:
